@@ -5,6 +5,7 @@ pub mod config;
 pub mod grammar;
 pub mod mutate;
 pub mod nest;
+pub mod programs;
 
 use crate::corpus::Corpus;
 use crate::tape::Tape;
